@@ -58,7 +58,18 @@ def gen_schedule(r):
     if k < 0.6:
         return [r.choice(CRONS) for _ in range(r.randint(0, 3))]
     keys = r.sample(["start", "stop", "restart"], r.randint(1, 3))
-    return M(*[(key, r.choice(CRONS) if r.random() < 0.5 else [r.choice(CRONS) for _ in range(r.randint(0, 2))]) for key in keys])
+    items = [(key, r.choice(CRONS) if r.random() < 0.5 else [r.choice(CRONS) for _ in range(r.randint(0, 2))]) for key in keys]
+    if r.random() < 0.45:
+        # keys whose value is null, of a wrong type or an empty list NEXT TO valued keys: parseScheduleMap has no case for
+        # them and must leave that key's list alone whatever order Go's map iteration visits the keys in
+        for key in r.sample(["start", "stop", "restart"], r.randint(1, 2)):
+            odd = r.choice([None, None, 5, M(), True, ("d", "1.5"), [], M(x="* * * * *"), 0, False])
+            items = [(k, v) for k, v in items if k != key] + [(key, odd)]
+        if not any(isinstance(v, (str, list)) and v for k, v in items):
+            other = [k for k in ["start", "stop", "restart"] if k not in [i[0] for i in items]]
+            items.append((other[0] if other else "start", r.choice(CRONS)))
+        r.shuffle(items)
+    return M(*items)
 
 
 def gen_config_value(r, depth=0):
@@ -300,6 +311,14 @@ CORPUS = [
     ("call-ok", M(functions=[M(name="f", params="x y", command="echo $x $y")], steps=[M(name="s", call=M(function="f", args=M(x=1, y="b")))])),
     ("handler", M(handlerOn=M(exit=M(command="echo bye"), failure=M(executor="mail")), steps=[STEP])),
     ("env-bad-key", M(env=M(("", "v")), steps=[STEP])),
+    ("sched-null-next-to-value", M(schedule=M(start="0 1 * * *", stop=None), steps=[STEP])),
+    ("sched-int-next-to-value", M(schedule=M(stop=5, start=["0 1 * * *", "0 2 * * *"], restart=M()), steps=[STEP])),
+    ("sched-bool-float-next-to-value", M(schedule=M(restart="0 3 * * *", start=True, stop=("d", "1.5")), steps=[STEP])),
+    ("sched-emptylist-next-to-value", M(schedule=M(start="0 1 * * *", stop=[], restart="0 5 * * *"), steps=[STEP])),
+    ("sched-all-odd", M(schedule=M(start=None, stop=5, restart=M()), steps=[STEP])),
+    ("sched-top-level-int", M(schedule=5, steps=[STEP])),
+    ("sched-list-nonstring", M(schedule=["0 1 * * *", 5], steps=[STEP])),
+    ("sched-map-list-nonstring", M(schedule=M(start=["0 1 * * *", None]), steps=[STEP])),
     ("sig-canonical", M(steps=[M(name="s", command="true", signalOnStop="SIGINT")], handlerOn=M(exit=M(command="true", signalOnStop="SIGUSR1")))),
     ("sig-lower", M(steps=[M(name="s", command="true", signalOnStop="sigint")])),
     ("sig-noprefix", M(steps=[M(name="s", command="true", signalOnStop="INT")])),
@@ -338,8 +357,9 @@ def impl_str(res):
     f = res["facts"]
     hs = f.get("handlers") or {}
     ev = f.get("evalConds", "ok")
-    return "ok;n=%s;sc=%d/%d/%d;st=%s;h=%s;ser=%d;ev=%d" % (
-        hexs(f["name"]), f["sched"][0], f["sched"][1], f["sched"][2],
+    sch = f.get("scheds") or [[], [], []]
+    return "ok;n=%s;sc=%s/%s/%s;st=%s;h=%s;ser=%d;ev=%d" % (
+        hexs(f["name"]), ",".join(hexs(x) for x in sch[0]), ",".join(hexs(x) for x in sch[1]), ",".join(hexs(x) for x in sch[2]),
         ",".join(step_str(s) for s in (f.get("steps") or [])),
         ",".join(step_str(hs[k]) if k in hs else "-" for k in ["exit", "success", "failure", "cancel"]),
         f.get("json") == "ok", ev == "ok")
@@ -383,6 +403,15 @@ def monitor(chk, cid, entry, res, replay_case, dist):
     ev = f.get("evalConds", "ok")
     if ev != "ok":
         chk.violation("C13:precondition-evaluation-" + ev.replace(":", "-in-"), "evaluating an accepted precondition crashes: " + ev, replay_case)
+
+
+def has_schedule_map(t):
+    if not is_map(t):
+        return False
+    for k, v in t[1]:
+        if isinstance(k, str) and k.lower() == "schedule" and is_map(v) and len(v[1]) >= 2:
+            return True
+    return False
 
 
 def signal_values(t, acc=None):
@@ -500,6 +529,12 @@ def run(chk, replay):
             for _ in range(r.choice([0, 1, 1, 1, 2, 2, 3])):
                 kinds.append(mutate(r, t))
             cases.append(("g%d" % i, "+".join(kinds) or "valid", from_mut(t), None))
+        # Go visits the keys of a schedule map in an order that is random per load: every definition with a schedule map of
+        # two or more keys is loaded 8 times, and each load is compared with the model
+        for cid, kind, t, raw in list(cases):
+            if has_schedule_map(t):
+                for k in range(1, 8):
+                    cases.append(("%s#%d" % (cid, k), "reload", t, None))
     lines = []
     for cid, kind, t, raw in cases:
         lines.append(raw if raw is not None else {"id": cid, "mode": "tree", "tree": enc(t), "eval": True})
@@ -621,7 +656,9 @@ def run(chk, replay):
     chk.rule = ("grammar of valid definitions (schedule string/list/map, env map/list, params, functions+call, run, executor string/map with nested "
                 "config, handlers, preconditions, mail/smtp, policies) with 0-3 mutations (type confusion, deletion, duplication, nesting, nulls, "
                 "key case/unknown/non-string keys, odd strings: TZ= prefixes, bad cron, bad regexp, empty/space commands; signalOnStop of steps and handlers "
-                "in canonical SIGxxx for 12 signals and in lower / mixed case, without the SIG prefix, numeric, with surrounding blanks, garbage, empty) through "
+                "in canonical SIGxxx for 12 signals and in lower / mixed case, without the SIG prefix, numeric, with surrounding blanks, garbage, empty; "
+                "schedule maps with null / wrong-typed / empty-list values next to valued keys, each such definition loaded 8 times (random map "
+                "order) with the start / stop / restart expression LISTS compared) through "
                 "LoadYAML, LoadMetadata, LoadWithoutEval, Load; plus the corpus of theorem witnesses; plus a raw stream (random bytes, YAML "
                 "punctuation soup, byte/span/tag mutations of rendered definitions) through the non-evaluating entries; non-trivial = distinct trees")
     chk.samples = [{"id": l["id"], "yaml": results[l["id"]].get("yaml", "")[:300],
